@@ -84,16 +84,38 @@ def decode_sql_string(tok, dialect):
     return "".join(out)
 
 
+def fmt_view(r, out, obs, v=None):
+    """Format-differential monitor (worker `fmtdiff`): the same program compiled with `format` on (the default of
+    Options) must give the same token sequence, literal for literal, as the unformatted text judged above."""
+    fd = r.get("fmtdiff")
+    if not fd:
+        return
+    st = fd.get("status")
+    obs["fmt_" + st] = obs.get("fmt_" + st, 0) + 1
+    if st == "differs":
+        # root-cause tag computed from the value itself: the emitted literal holds a backslash directly in front of
+        # a quote character (a value ending in a backslash, or with backslash-quote inside), KF-C08-4
+        tag = "+backslash_before_quote" if (v is not None and (v.endswith("\\") or "\\'" in v)) else ""
+        out.append((("formatted_literal_differs" if fd.get("literal") else "formatted_statement_differs") + tag,
+                    "token %s: unformatted %s, formatted %s; formatted sql=%r" % (fd.get("at"), fd.get("this"), fd.get("other"), (fd.get("other_sql") or "")[:300])))
+    elif st in ("other_rejected", "other_panic"):
+        out.append(("formatted_compile_fails", json.dumps(fd)[:300]))
+    elif st == "untokenizable" and not fd.get("same_modulo_blanks"):
+        obs["fmt_untokenizable_and_different"] = obs.get("fmt_untokenizable_and_different", 0) + 1
+
+
+
 def judge_string(w, v, style, text, ctx_name, src, dialect, benign_ast, do_exec):
     """-> list of (symptom, detail), obs"""
     out = []
-    r = w.call({"op": "compile", "src": src, "target": "sql." + dialect, "db": "d" if do_exec else None})
+    r = w.call({"op": "compile", "src": src, "target": "sql." + dialect, "db": "d" if do_exec else None, "fmtdiff": True})
     if "sql" not in r:
         if "panic" in r:
             return [("panic:" + core.panic_sig(r["panic"]), "")], {"rejected": 1}
         return [], {"rejected": 1}
     sql = r["sql"]
     obs = {"compiled": 1}
+    fmt_view(r, out, obs, v)
     # (b, c) dialect view: parse, find the literal, decode, compare structure with the benign twin
     p = w.call({"op": "sqlparse", "dialect": {"glaredb": "postgres"}.get(dialect, dialect), "sql": sql, "ast": True})
     if not p.get("ok"):
@@ -194,17 +216,19 @@ NUMERIC = NUMERIC + _based_literals()
 def judge_number(w, text, val, dialect, do_exec):
     out = []
     src = "from t | select {x = %s}" % text
-    r = w.call({"op": "compile", "src": src, "target": "sql." + dialect, "db": "d" if do_exec else None})
+    r = w.call({"op": "compile", "src": src, "target": "sql." + dialect, "db": "d" if do_exec else None, "fmtdiff": True})
     if "sql" not in r:
         if "panic" in r:
             return [("panic:" + core.panic_sig(r["panic"]), "")], {}
         return [], {"rejected": 1}
     sql = r["sql"]
+    fobs = {}
+    fmt_view(r, out, fobs)
     m = re.match(r"SELECT (.*) AS x FROM t$", sql)
     tok = m.group(1) if m else None
     if tok is None:
-        return [], {}
-    obs = {"compiled": 1}
+        return out, fobs
+    obs = dict(fobs, compiled=1)
     if isinstance(val, bool):
         ok = tok.lower() in (("true", "1") if val else ("false", "0"))
         if not ok:
@@ -316,13 +340,14 @@ _KW = {"date": ("DATE",), "time": ("TIME",), "timestamp": ("TIMESTAMP", "DATETIM
 
 def judge_temporal(w, kind, text, ctx_name, src, dialect, do_exec):
     out = []
-    r = w.call({"op": "compile", "src": src, "target": "sql." + dialect, "db": "d" if do_exec else None})
+    r = w.call({"op": "compile", "src": src, "target": "sql." + dialect, "db": "d" if do_exec else None, "fmtdiff": True})
     if "sql" not in r:
         if "panic" in r:
             return [("panic:" + core.panic_sig(r["panic"]), "")], {"rejected": 1}
         return [], {"rejected": 1}
     sql = r["sql"]
     obs = {"compiled": 1}
+    fmt_view(r, out, obs)
     p = w.call({"op": "sqlparse", "dialect": {"glaredb": "postgres"}.get(dialect, dialect), "sql": sql})
     if not p.get("ok"):
         out.append(("statement_broken", "sql=%r %s" % (sql[:200], p.get("parse_error", "")[:80])))
@@ -395,7 +420,7 @@ def gen_strings(rng, tier):
             out.append("".join(rng.choice(CORE_ALPHABET) for _ in range(3)))
     # digraphs: every ordered pair of the characters that lexers and SQL printers treat specially,
     # alone, embedded and at either end (pairs such as CR LF, backslash quote, quote quote)
-    special = ["'", "\"", "\\", "\n", "\r", "\t", "{", "}", "-", "#"] if tier == "quick" else HOSTILE
+    special = ["'", "\"", "\\", "\n", "\r", "\t", " ", "{", "}", "-", "#"] if tier == "quick" else HOSTILE
     for x in special:
         for y in special:
             out.append(x + y)
